@@ -18,7 +18,7 @@ func init() { checks["C14"] = c14 }
 func c14(args []string) {
 	c := chk.New("C14", "exploration", args)
 	c.Build(false)
-	c.Rule("in-process batches (subject mode 'tempdir'): Task.TempDir() of tasks built with the public NewTask for identities (process name, in-port -> path, sub-stream members, parameters, tags) enumerated exhaustively over a small alphabet (names {a,b,ab,A}; paths over segments {a,b,ab,c}, relative and absolute; 0-2 parameters / tags with values {a,b,ab,a_b,b_c}; sub-streams of 0-2 members) and drawn randomly from large ones (names up to 420 bytes incl. every length 1..420, deep paths); oracle: identities are grouped by TempDir(): two different identities with the same directory are a collision; every identity is evaluated 8 times from freshly built maps (stability); every identity is evaluated again in a second process (stability across runs); every name is one path segment of 1..255 bytes; identities that differ only in a special value (printf / date verbs with different flags, blanks, case, non-ASCII, shell metacharacters) as parameter value, tag value and process name; parameter names differing only in case. distinct_nontrivial = distinct identities evaluated")
+	c.Rule("in-process batches (subject mode 'tempdir'): Task.TempDir() of tasks built with the public NewTask for identities (process name, in-port -> path, sub-stream members, parameters, tags) enumerated exhaustively over a small alphabet (names {a,b,ab,A}; paths over segments {a,b,ab,c}, relative and absolute; 0-2 parameters / tags with values {a,b,ab,a_b,b_c}; sub-streams of 0-2 members) and drawn randomly from large ones (names up to 420 bytes incl. every length 1..420, deep paths); oracle: identities are grouped by TempDir(): two different identities with the same directory are a collision; every identity is evaluated 8 times from freshly built maps (stability); every identity is evaluated again in a second process whose working directory lies four levels deeper (stability across runs, also after the project directory was moved); every name is one path segment of 1..255 bytes; identities that differ only in a special value (printf / date verbs with different flags, blanks, surrounding white space, case, non-ASCII, shell metacharacters) as parameter value, tag value and process name; parameter names differing only in case. distinct_nontrivial = distinct identities evaluated")
 	c.Assume("identities are compared on cleaned paths", "known finding: the hash pre-image is a separator-less concatenation of the pieces; collisions between identities whose reference pre-images are equal are reported as KNOWN-FINDING, every other collision is a violation")
 	rng := c.Rand("c14")
 	cases := gen.TDExhaustive(c.Thorough())
@@ -75,7 +75,8 @@ func c14(args []string) {
 		}
 		// a second, independent process must give the same names (stability across runs)
 		out2 := filepath.Join(root, "meta", "dirs2.jsonl")
-		rc2 := &run.Case{Root: root, Bin: c.Bin, Mode: "tempdir", Args: []string{in, out2}, KeepWd: true, RunNo: 1, Env: map[string]string{"GOMAXPROCS": "1"}}
+		rc2 := &run.Case{Root: root, Bin: c.Bin, Mode: "tempdir", Args: []string{in, out2}, KeepWd: true, RunNo: 1, Env: map[string]string{"GOMAXPROCS": "1"},
+			WdRel: "wd/moved/two/levels/down"} // the project directory was moved between the runs: the name depends on the identity only
 		r2 := rc2.Run()
 		if r2.Exit == 0 {
 			of2, _ := os.Open(out2)
